@@ -102,7 +102,7 @@ def settings(method="AM1", eps=1e-9, converger=None, sp2=None, uhf=False, analyt
     return sp
 
 
-def run(species, coords, sp: Dict[str, Any], charges=None, mult=None, P0=None, learned=None, want_grad=False, quiet=True) -> Dict[str, Any]:
+def run(species, coords, sp: Dict[str, Any], charges=None, mult=None, P0=None, learned=None, want_grad=False, quiet=True, active=None, es_kwargs=None) -> Dict[str, Any]:
     """One call of the real Electronic_Structure on a batch. `sp` is copied (the package mutates it)."""
     from seqm.ElectronicStructure import Electronic_Structure
     from seqm.Molecule import Molecule
@@ -122,14 +122,17 @@ def run(species, coords, sp: Dict[str, Any], charges=None, mult=None, P0=None, l
     with cm:
         mol = Molecule(Constants(), sp, coords_t, species_t, **kw)
         es = Electronic_Structure(sp)
-        es(mol, P0=P0, **({"learned_parameters": learned} if learned is not None else {}))
+        if active is not None:
+            # per-molecule active surfaces (a tensor mixing ground and excited members of one batch)
+            mol.active_state = torch.as_tensor(np.asarray(active), dtype=torch.int64)
+        es(mol, P0=P0, **({"learned_parameters": learned} if learned is not None else {}), **(es_kwargs or {}))
     out = {
         "Etot": mol.Etot.detach().numpy().copy(),
         "Eelec": mol.Eelec.detach().numpy().copy(),
         "Enuc": mol.Enuc.detach().numpy().copy(),
         "Hf": mol.Hf.detach().numpy().copy(),
         "Eiso": mol.Eiso.detach().numpy().copy(),
-        "force": mol.force.detach().numpy().copy(),
+        "force": mol.force.detach().numpy().copy() if torch.is_tensor(getattr(mol, "force", None)) else None,
         "q": mol.q.detach().numpy().copy() if mol.q is not None else None,
         "dipole": mol.dipole.detach().numpy().copy() if torch.is_tensor(mol.dipole) else None,
         "e_mo": mol.e_mo.detach().numpy().copy() if torch.is_tensor(mol.e_mo) else None,
